@@ -204,4 +204,7 @@ class JobArrayer:
         else:
             self._submit_jobs(jobs)
 
-        self.num_pending -= len(jobs)
+        # Lock, otherwise a concurrent `num_pending += 1` in add_job() can be lost
+        # between the read and the write of this update.
+        with self._lock:
+            self.num_pending -= len(jobs)
